@@ -44,6 +44,7 @@ type half struct {
 	rdl      time.Time
 	dlTimer  *time.Timer
 	resetErr bool
+	wdelay   time.Duration // Write returns this long after the bytes were delivered
 }
 
 func newHalf() *half {
@@ -112,9 +113,13 @@ func (h *half) write(p []byte) (int, error) {
 	}
 	h.total += len(q)
 	h.cond.Broadcast()
+	wd := h.wdelay
 	h.mu.Unlock()
 	if fire != nil {
 		fire()
+	}
+	if wd > 0 {
+		time.Sleep(wd)
 	}
 	return len(p), nil
 }
@@ -230,6 +235,10 @@ func (c *Conn) FailWrites() {
 	}
 	c.w.mu.Unlock()
 }
+
+// SetWriteReturnDelay makes every Write of this end return d after its bytes were delivered to the peer
+// (the writing goroutine is slow to come back from the system call).
+func (c *Conn) SetWriteReturnDelay(d time.Duration) { c.w.mu.Lock(); c.w.wdelay = d; c.w.mu.Unlock() }
 
 // Written returns the number of bytes this end wrote so far.
 func (c *Conn) Written() int { c.w.mu.Lock(); defer c.w.mu.Unlock(); return c.w.total }
